@@ -1844,7 +1844,7 @@ sf_read_short	(SNDFILE *sndfile, short *ptr, sf_count_t len)
 
 	count = psf->read_short (psf, ptr, len) ;
 
-	if (count <= (psf->sf.frames - psf->read_current) * psf->sf.channels)
+	if (psf->sf.frames - psf->read_current >= len / psf->sf.channels || count <= (psf->sf.frames - psf->read_current) * psf->sf.channels)
 		psf->read_current += count / psf->sf.channels ;
 	else
 	{	count = (psf->sf.frames - psf->read_current) * psf->sf.channels ;
@@ -1894,7 +1894,7 @@ sf_readf_short		(SNDFILE *sndfile, short *ptr, sf_count_t frames)
 
 	count = psf->read_short (psf, ptr, frames * psf->sf.channels) ;
 
-	if (count <= (psf->sf.frames - psf->read_current) * psf->sf.channels)
+	if (psf->sf.frames - psf->read_current >= frames || count <= (psf->sf.frames - psf->read_current) * psf->sf.channels)
 		psf->read_current += count / psf->sf.channels ;
 	else
 	{	count = (psf->sf.frames - psf->read_current) * psf->sf.channels ;
@@ -1952,7 +1952,7 @@ sf_read_int		(SNDFILE *sndfile, int *ptr, sf_count_t len)
 
 	count = psf->read_int (psf, ptr, len) ;
 
-	if (count <= (psf->sf.frames - psf->read_current) * psf->sf.channels)
+	if (psf->sf.frames - psf->read_current >= len / psf->sf.channels || count <= (psf->sf.frames - psf->read_current) * psf->sf.channels)
 		psf->read_current += count / psf->sf.channels ;
 	else
 	{	count = (psf->sf.frames - psf->read_current) * psf->sf.channels ;
@@ -2002,7 +2002,7 @@ sf_readf_int	(SNDFILE *sndfile, int *ptr, sf_count_t frames)
 
 	count = psf->read_int (psf, ptr, frames * psf->sf.channels) ;
 
-	if (count <= (psf->sf.frames - psf->read_current) * psf->sf.channels)
+	if (psf->sf.frames - psf->read_current >= frames || count <= (psf->sf.frames - psf->read_current) * psf->sf.channels)
 		psf->read_current += count / psf->sf.channels ;
 	else
 	{	count = (psf->sf.frames - psf->read_current) * psf->sf.channels ;
@@ -2060,7 +2060,7 @@ sf_read_float	(SNDFILE *sndfile, float *ptr, sf_count_t len)
 
 	count = psf->read_float (psf, ptr, len) ;
 
-	if (count <= (psf->sf.frames - psf->read_current) * psf->sf.channels)
+	if (psf->sf.frames - psf->read_current >= len / psf->sf.channels || count <= (psf->sf.frames - psf->read_current) * psf->sf.channels)
 		psf->read_current += count / psf->sf.channels ;
 	else
 	{	count = (psf->sf.frames - psf->read_current) * psf->sf.channels ;
@@ -2110,7 +2110,7 @@ sf_readf_float	(SNDFILE *sndfile, float *ptr, sf_count_t frames)
 
 	count = psf->read_float (psf, ptr, frames * psf->sf.channels) ;
 
-	if (count <= (psf->sf.frames - psf->read_current) * psf->sf.channels)
+	if (psf->sf.frames - psf->read_current >= frames || count <= (psf->sf.frames - psf->read_current) * psf->sf.channels)
 		psf->read_current += count / psf->sf.channels ;
 	else
 	{	count = (psf->sf.frames - psf->read_current) * psf->sf.channels ;
@@ -2168,7 +2168,7 @@ sf_read_double	(SNDFILE *sndfile, double *ptr, sf_count_t len)
 
 	count = psf->read_double (psf, ptr, len) ;
 
-	if (count <= (psf->sf.frames - psf->read_current) * psf->sf.channels)
+	if (psf->sf.frames - psf->read_current >= len / psf->sf.channels || count <= (psf->sf.frames - psf->read_current) * psf->sf.channels)
 		psf->read_current += count / psf->sf.channels ;
 	else
 	{	count = (psf->sf.frames - psf->read_current) * psf->sf.channels ;
@@ -2218,7 +2218,7 @@ sf_readf_double	(SNDFILE *sndfile, double *ptr, sf_count_t frames)
 
 	count = psf->read_double (psf, ptr, frames * psf->sf.channels) ;
 
-	if (count <= (psf->sf.frames - psf->read_current) * psf->sf.channels)
+	if (psf->sf.frames - psf->read_current >= frames || count <= (psf->sf.frames - psf->read_current) * psf->sf.channels)
 		psf->read_current += count / psf->sf.channels ;
 	else
 	{	count = (psf->sf.frames - psf->read_current) * psf->sf.channels ;
